@@ -41,6 +41,7 @@ var errInjected = errors.New("injected fault")
 type lockWrite struct {
 	key  [32]byte
 	data []byte
+	by   *plan // the instance (its fault plan) that made the write
 }
 
 // store = the lock backend registers and the object store of one world
@@ -223,7 +224,7 @@ func (l simLock) Replace(ctx context.Context, old ctlog.LockedCheckpoint, new []
 	if can && f != fFail {
 		l.st.lock[o.id] = bytes.Clone(new)
 		if !isCfg {
-			l.st.writes = append(l.st.writes, lockWrite{o.id, bytes.Clone(new)})
+			l.st.writes = append(l.st.writes, lockWrite{o.id, bytes.Clone(new), l.p})
 		}
 	}
 	if f != fOK {
